@@ -18,6 +18,11 @@ PROPS = {
                      "(18 divider lists incl. multi-character, overlapping, empty; values extending / truncating each other; typed text mostly a "
                      "prefix of a value, also ending inside a divider); non-trivial = at least one value has the typed text as prefix and contains "
                      "a divider; distinct by full case content"),
+    "C12": dict(streams=[dict(harness="algebra", model="algebra", oracle="algebra_oracle", quick=6000, thorough=300000)],
+                tie="Model/Action.v (invoke . denote) <-> real Action.Invoke of the same expression",
+                rule="cases = (match mode, Context value/args/parts, Action expression of depth <= 5 over 24 node kinds with adversarial "
+                     "parameters: empty strings, overlapping prefixes, separators of length 0-2, n in {-1,0,1,2,3,4}) from VERIF_SEED by "
+                     "harness/algebra.go; non-trivial = the result has at least one value or message; distinct by full case content"),
 }
 
 TRUSTED = ["Go harness stream(s) and extracted oracle of this property (see rule)"]
